@@ -1,5 +1,6 @@
 import AmVerif.Lemmas.TopoGraph
 import AmVerif.Lemmas.Converge
+import AmVerif.Lemmas.Settle
 import AmVerif.Model.History
 import AmVerif.Lemmas.World
 import AmVerif.Gen.Tables
@@ -609,6 +610,123 @@ theorem C05_full_statement_false_miss :
     rank_of_entries (by decide), rfl, by decide, exEnv_unchanged _ _ _ _, fun _ _ => rfl, by decide, rfl, rfl,
     fun h => absurd (noMiss_check_of h) (by decide), reloadsReturn_of_check (by decide),
     noRewire_of_check (by decide), staleAt_of_check (by decide), by decide, by decide⟩
+
+/-! ## Loading establishes and preserves `Settled`
+
+`Lemmas/Settle.lean`. The statement "after a load (handle or error) and after the reloader has taken
+the registrations, everything registered and cached is settled" is **false** of the code and of the
+model for `Plain` loaders in an all-hot environment, in two situations (`C05_load_settles_false_absorbed`,
+`C05_load_settles_false_probe`), and `Settled` is not preserved by a later load in a third
+(`C05_load_preserves_false_fill`). They are excluded by named hypotheses: `CleanLoad` on the load
+(= `cleanRun`: no absorbed failure, no `get_cached` probe of a key that is cached before the load
+returns, no lost insertion) and `NoProbedKeyFilled` relative to what was registered before. -/
+
+/-- **One API load establishes and preserves `Settled`** (partial: `hclean`, `hfill`).
+
+`env` without fault plan; `s`, `r`: the cache and the reloader's data, channel drained, everything
+registered and cached settled, dependency index exact.
+* `hclean` — `CleanLoad`: the evaluation of `load(key)` is a clean loading run (`cleanRun`), i.e. on the
+  path it takes — nested loader bodies included — plain constructors only and every look-up recorded
+  (hot types, cache with reloader: this is what `Env.Hot` and `Prog.Plain` give, required on the path
+  only), **no absorbed failure** (when a nested load fails the loader that asked for it does not go on
+  to return a value), **no probe of a key that gets filled** (a `get_cached` that finds nothing is for
+  a key still absent when the load returns), **no lost insertion** (the key is not loaded again while
+  its own loader runs);
+* `hfill` — `NoProbedKeyFilled`: the load caches no key that an asset registered before depends on
+  while it is absent.
+No hypothesis on the fuel or on the result: the conclusion holds whether the load returns a handle, an
+error, panics or runs out of fuel (re-evaluations after the load only hit: `hitRun_fuel`).
+
+Conclusion: after the load and after the reloader has taken the `AddAsset` messages, every
+registered, cached, dynamic asset — including all the assets the load cached on the way — holds what
+re-evaluating its loader returns and its node holds exactly what that re-evaluation reads; the index
+is exact; the channel is drained. -/
+theorem C05_load_settles_partial (env : Env) (fuel : Nat) (s : St) (r : RSt) (key : Key)
+    (hS : env.Steady) (hdrained : s.out = []) (hset : Settled env fuel s r.graph) (hG : GraphOK r.graph)
+    (hclean : CleanLoad env fuel s key)
+    (hfill : NoProbedKeyFilled s (step env fuel s (.load key)).1 r.graph) :
+    Settled env fuel (processMsgs (step env fuel s (.load key)).1 r).1
+      (processMsgs (step env fuel s (.load key)).1 r).2.graph ∧
+    GraphOK (processMsgs (step env fuel s (.load key)).1 r).2.graph ∧
+    (processMsgs (step env fuel s (.load key)).1 r).1.out = [] := by
+  obtain ⟨h1, h2⟩ := load_settles hS key hdrained hset hclean hfill
+  exact ⟨h1, C05_processMsgs_graphOK _ _ hG, h2⟩
+
+/-- **Read-back of a clean load**: every registration a clean run sends is for an asset that, in the
+cache the load ends in, holds what re-evaluating its loader returns, and lists exactly what that
+re-evaluation reads (the re-evaluation needs no more fuel than the load had). -/
+theorem C05_clean_registrations_good (env : Env) (hS : env.Steady) (fuel : Nat) (s : St) (p : Prog)
+    (hclean : cleanRun env (eval env fuel s p).1 fuel s p = true) :
+    ∀ m, m ∈ (eval env fuel s p).1.out → m ∈ s.out ∨ ∃ k D, m = .addAsset k D ∧ MsgGood env fuel (eval env fuel s p).1 k D :=
+  clean_msgs hS fuel (fun _ h => h) fuel p s (Nat.le_refl _) hclean (St.Le.refl _)
+
+/-- **Histories of loads and `hot_reload`s** (partial), from the empty cache and an empty reloader,
+under one environment without fault plan: if every load of the history satisfies `LoadOK` in the
+state it starts from (`CleanLoad`, `NoProbedKeyFilled`, and the same for the registrations still in
+the channel: `NoPendingKeyFilled`), then after **every** `hot_reload` step everything registered and
+cached is settled, the index is exact and the channel is drained. Loads need not be separated by
+`hot_reload`s. -/
+theorem C05_history_settled_partial (env : Env) (hS : env.Steady) (fuel : Nat) (h : List (Env × HOp))
+    (hh : LoadHist env fuel h ({}, {})) :
+    ∀ h1 h2, h = h1 ++ (env, .hotReload) :: h2 →
+      Settled env fuel (runH fuel (h1 ++ [(env, .hotReload)]) ({}, {})).1 (runH fuel (h1 ++ [(env, .hotReload)]) ({}, {})).2.graph ∧
+      GraphOK (runH fuel (h1 ++ [(env, .hotReload)]) ({}, {})).2.graph ∧
+      (runH fuel (h1 ++ [(env, .hotReload)]) ({}, {})).1.out = [] := by
+  intro h1 h2 e
+  obtain ⟨j1, j2⟩ := (loads_settle hS hh (HInv.init env fuel)).2 h1 h2 e
+  exact ⟨j1, C05_history_keeps_graphOK fuel _ _ graphOK_nil, j2⟩
+
+/-- the cache and the reloader after `load(key)` and after the reloader has taken the registrations -/
+def loadDrain (env : Env) (fuel : Nat) (x : St × RSt) (key : Key) : St × RSt :=
+  processMsgs (step env fuel x.1 (.load key)).1 x.2
+
+/-- **Load, edit, notify, `hot_reload`** (partial). `x = (s, r)`: channel drained, everything settled
+under `env`, index exact, reloader alive, local mode. `load(key)` under `env` (`hclean`, `hfill` as in
+`C05_load_settles_partial`), the reloader takes the registrations (`loadDrain`); the source is edited:
+`env'` differs from `env` only on `changed` (`hfile`, `hdir`); every changed entry is notified
+(`handleEvents`: the graph keeps the ones it knows); `hot_reload()` under `env'`. Under the three named
+hypotheses on that pass (`hmiss` = `NoMissInPass`, excludes F-C05d; `hret` = `ReloadsReturn`;
+`hrewire` = `NoRewireOntoPending`, excludes F-C05e) and acyclic look-ups (`hrank`), afterwards every
+registered, cached, dynamic asset — those the load cached included — is settled under the NEW source. -/
+theorem C05_load_edit_reload_converges_partial (env env' : Env) (fuel : Nat) (x : St × RSt) (key : Key)
+    (changed : List Dep) {rank : Dep → Nat}
+    (hS : env.Steady) (hS' : env'.Steady) (hL : SameLoaders env env')
+    (hdrained : x.1.out = []) (hset : Settled env fuel x.1 x.2.graph) (hG : GraphOK x.2.graph)
+    (hlive : x.2.dead = false) (hlocal : x.2.static_ = false)
+    (hclean : CleanLoad env fuel x.1 key)
+    (hfill : NoProbedKeyFilled x.1 (step env fuel x.1 (.load key)).1 x.2.graph)
+    (hfile : ∀ id ext, Dep.file id ext ∉ changed → env'.read 0 id ext = env.read 0 id ext)
+    (hdir : ∀ id, Dep.dir id ∉ changed → env'.readDir 0 id = env.readDir 0 id)
+    (hrank : ∀ a rs b, (loadDrain env fuel x key).2.graph.rdepsOf a = some rs → b ∈ rs → rank b < rank a)
+    (hfuel : (loadDrain env fuel x key).2.graph.length + 1 ≤ fuel)
+    (hmiss : NoMissInPass env' fuel (updateSteps env' fuel
+      (handleEvents env' fuel (loadDrain env fuel x key).1 (loadDrain env fuel x key).2 changed).1
+      (handleEvents env' fuel (loadDrain env fuel x key).1 (loadDrain env fuel x key).2 changed).2))
+    (hret : ReloadsReturn env' fuel (updateSteps env' fuel
+      (handleEvents env' fuel (loadDrain env fuel x key).1 (loadDrain env fuel x key).2 changed).1
+      (handleEvents env' fuel (loadDrain env fuel x key).1 (loadDrain env fuel x key).2 changed).2))
+    (hrewire : NoRewireOntoPending env' fuel (updateSteps env' fuel
+      (handleEvents env' fuel (loadDrain env fuel x key).1 (loadDrain env fuel x key).2 changed).1
+      (handleEvents env' fuel (loadDrain env fuel x key).1 (loadDrain env fuel x key).2 changed).2)) :
+    Settled env' fuel
+      (hotReload env' fuel (handleEvents env' fuel (loadDrain env fuel x key).1 (loadDrain env fuel x key).2 changed).1
+        (handleEvents env' fuel (loadDrain env fuel x key).1 (loadDrain env fuel x key).2 changed).2).1
+      (hotReload env' fuel (handleEvents env' fuel (loadDrain env fuel x key).1 (loadDrain env fuel x key).2 changed).1
+        (handleEvents env' fuel (loadDrain env fuel x key).1 (loadDrain env fuel x key).2 changed).2).2.graph ∧
+    (hotReload env' fuel (handleEvents env' fuel (loadDrain env fuel x key).1 (loadDrain env fuel x key).2 changed).1
+        (handleEvents env' fuel (loadDrain env fuel x key).1 (loadDrain env fuel x key).2 changed).2).2.dead = false := by
+  obtain ⟨s, r⟩ := x
+  have hl : Settled env fuel (loadDrain env fuel (s, r) key).1 (loadDrain env fuel (s, r) key).2.graph ∧
+      GraphOK (loadDrain env fuel (s, r) key).2.graph ∧ (loadDrain env fuel (s, r) key).1.out = [] :=
+    C05_load_settles_partial env fuel s r key hS hdrained hset hG hclean hfill
+  have hd1 : (loadDrain env fuel (s, r) key).2.dead = false := (processMsgs_dead _ _).trans hlive
+  have hs1 : (loadDrain env fuel (s, r) key).2.static_ = false := (processMsgs_static _ _).trans hlocal
+  generalize loadDrain env fuel (s, r) key = x1 at *
+  obtain ⟨s1, r1⟩ := x1
+  obtain ⟨l1, l2, l3⟩ := hl
+  rw [handleEvents_local env' fuel s1 r1 changed hd1 hs1 l3] at hmiss hret hrewire ⊢
+  exact C05_hot_reload_converges_partial env env' fuel _ _ changed hS hS' hL l1 l2 hrank hd1 hfuel l3 hs1 hfile hdir
+    (fun d hd hg => mem_keepEvents _ changed _ d hd hg) hmiss hret hrewire
 
 /-! Non-vacuity -/
 example : GraphOK (Graph.insertAsset [] (.asset ⟨0, "a"⟩) [.file "a" "s"]) :=
